@@ -145,6 +145,20 @@ Proof.
   intros [Hi Ht] Hth. split; [exact Hi|]. intros j. cbn. destruct (Nat.eqb_spec j t); [subst; exact Hth|apply Ht].
 Qed.
 
+Lemma rel_same s x : s_idle (rel s x) = s_idle s /\ s_thr (rel s x) = s_thr s /\ s_ans (rel s x) = s_ans s /\ s_max (rel s x) = s_max s.
+Proof. unfold rel. destruct (x_rd x); auto. Qed.
+Lemma inv_rel s x : Inv s -> Inv (rel s x).
+Proof. unfold rel. destruct (x_rd x); intros H; exact H. Qed.
+Lemma inv_set_thr0_rel s t x th : Inv s -> thread_ok (s_ans s t) t th -> Inv (set_thr (rel s x) t th).
+Proof.
+  intros HI Hth. apply inv_set_thr0; [apply inv_rel, HI|]. destruct (rel_same s x) as (_ & _ & -> & _). exact Hth.
+Qed.
+Lemma inv_set_thr_rel s t x th idle' :
+  Inv s -> (forall k, In k idle' -> clean k) -> thread_ok (s_ans s t) t th -> Inv (set_thr (set_idle (rel s x) idle') t th).
+Proof.
+  intros HI Hi Hth. apply inv_set_thr; [apply inv_rel, HI|exact Hi|]. destruct (rel_same s x) as (_ & _ & -> & _). exact Hth.
+Qed.
+
 Lemma In_remove_nth {A} i (l : list A) x : In x (remove_nth i l) -> In x l.
 Proof. revert i. induction l as [|a l IH]; intros [|i]; cbn; intuition eauto. Qed.
 Lemma In_replace_nth {A} i (v : A) l x : In x (replace_nth i v l) -> x = v \/ In x l.
@@ -173,15 +187,15 @@ Lemma finish_inv s t x k body r :
 Proof.
   intros HI Hsafe Hout Hans Hh Hbody Hrest. unfold finish.
   destruct (o_stream (x_opts x) && body) eqn:Hsb.
-  - apply andb_true_iff in Hsb as [Hs Hb]. apply inv_set_thr0; [exact HI|]. cbn. split; [exact Hsafe|].
+  - apply andb_true_iff in Hsb as [Hs Hb]. (first [apply inv_set_thr0_rel|apply inv_set_thr0]); [exact HI|]. cbn. split; [exact Hsafe|].
     split; [exact Hout|]. exists r. split; [exact Hans|]. split; [exact Hh|]. split; [auto|]. cbn. split; [exact Hs|].
     destruct Hrest as [Hr|[[Hr _]|[Hr _]]]; [exact Hr|congruence|congruence].
   - assert (Hdone : forall kept, thread_ok (s_ans s t) t (TDone x OOk kept)).
     { intros kept. cbn. exists r, (pend k). split; [exact Hans|]. intros Hs Hk Hfr.
       destruct Hrest as [Hr|[(_ & Hr & _)|(_ & Hr & _)]]; [exact Hr|contradiction|congruence]. }
     destruct (close_conn x) eqn:Hcc.
-    + apply inv_set_thr0; [exact HI|apply Hdone].
-    + apply inv_set_thr; [exact HI| |apply Hdone].
+    + (first [apply inv_set_thr0_rel|apply inv_set_thr0]); [exact HI|apply Hdone].
+    + (first [apply inv_set_thr_rel|apply inv_set_thr]); [exact HI| |apply Hdone].
       intros k' [<-|Hin]; [|apply HI; exact Hin]. split; [exact Hout|].
       destruct Hrest as [Hr|[(_ & Hfr & Hnb)|(_ & _ & Hc)]]; [apply quiet_of_pend; exact Hr| |congruence].
       exfalso. rewrite (close_conn_resp _ _ Hh (resp_close_ident _ Hfr Hnb)) in Hcc. discriminate.
@@ -212,14 +226,14 @@ Lemma read_inv s t x p k tg sy rest :
   Inv (match rd_sym (s_max s) (eff_skip (x_opts x)) (o_stream (x_opts x)) p sy with
        | RMore p1 => set_thr s t (TRun x1 p1 k1)
        | RDone body => finish s t x1 k1 body
-       | RFail e => set_thr s t (TDone x1 e false)
+       | RFail e => set_thr (rel s x) t (TDone x1 e false)
        end).
 Proof.
   intros HI Hth Hinb Hsp Hacq k1 x1.
   pose proof (proj2 HI t) as Ht. rewrite Hth in Ht. destruct Ht as [Hsafe Ht].
   pose proof (pend_set_inb _ _ _ Hinb) as Hpend. fold k1 in Hpend.
-  assert (Hfail : forall e, e <> OOk -> Inv (set_thr s t (TDone x1 e false))).
-  { intros e He. apply inv_set_thr0; [exact HI|]. destruct e; try exact I. congruence. }
+  assert (Hfail : forall e, e <> OOk -> Inv (set_thr (rel s x) t (TDone x1 e false))).
+  { intros e He. (first [apply inv_set_thr0_rel|apply inv_set_thr0]); [exact HI|]. destruct e; try exact I. congruence. }
   destruct p as [ | |n|cnt|cnt n|cnt| |n e|n e|e| ]; try discriminate; try congruence.
   - (* PHead *)
     destruct Ht as [Hgot [[Hout Hq]|[Hout [r (Ha & Hwf & Heq)]]]].
@@ -232,7 +246,7 @@ Proof.
     assert (Hans1 : answered (s_ans s t) t x1 (pend k1) r).
     { split; [exact Ha|]. split; [exact Hwf|]. subst x1. cbn [x_got x_opts add_got set_head]. rewrite Hgot, twire_cons, <- Htl. reflexivity. }
     destruct (after_head _ _ _ _) as [p1|body|e] eqn:Hahd.
-    + destruct Hah as [Hnw Hph]. apply inv_set_thr0; [exact HI|]. cbn. split; [exact Hsafe|].
+    + destruct Hah as [Hnw Hph]. (first [apply inv_set_thr0_rel|apply inv_set_thr0]); [exact HI|]. cbn. split; [exact Hsafe|].
       assert (Hp1 : match p1 with PAcq | PHead => False | _ => True end).
       { destruct p1; cbn in Hph; try contradiction; exact I. }
       destruct p1; try contradiction; (split; [exact Hout|]); exists r; (split; [exact Hans1|]); (split; [reflexivity|]); (split; [exact Hnw|]); exact Hph.
@@ -253,7 +267,7 @@ Proof.
     assert (Hans1 : answered (s_ans s t) t x1 (pend k1) r).
     { split; [exact Ha|]. split; [exact Hwf|]. subst x1. cbn [x_got x_opts add_got]. rewrite <- app_assoc. exact Heq. }
     destruct (rd_sym _ _ _ _ _) as [p1|body|e] eqn:Hrd.
-    + apply inv_set_thr0; [exact HI|]. cbn. split; [exact Hsafe|].
+    + (first [apply inv_set_thr0_rel|apply inv_set_thr0]); [exact HI|]. cbn. split; [exact Hsafe|].
       apply (ph_ok_mono _ _ _ (dead k1)) in Hb; [|intros Hd; exfalso; eapply not_dead_inb; eauto].
       destruct p1 as [ | | | | | | | |[|?] ?| | ]; cbn in Hb; try contradiction; (split; [exact Hout|]); exists r; (split; [exact Hans1|]); (split; [exact Hh|]); (split; [exact Hnw|]); exact Hb.
     + destruct Hb as [Hnil ->]. apply finish_inv with (r := r); auto.
@@ -264,7 +278,7 @@ Proof.
     assert (Hans1 : answered (s_ans s t) t x1 (pend k1) r).
     { split; [exact Ha|]. split; [exact Hwf|]. subst x1. cbn [x_got x_opts add_got]. rewrite <- app_assoc. exact Heq. }
     destruct (rd_sym _ _ _ _ _) as [p1|body|e] eqn:Hrd.
-    + apply inv_set_thr0; [exact HI|]. cbn. split; [exact Hsafe|].
+    + (first [apply inv_set_thr0_rel|apply inv_set_thr0]); [exact HI|]. cbn. split; [exact Hsafe|].
       apply (ph_ok_mono _ _ _ (dead k1)) in Hb; [|intros Hd; exfalso; eapply not_dead_inb; eauto].
       destruct p1 as [ | | | | | | | |[|?] ?| | ]; cbn in Hb; try contradiction; (split; [exact Hout|]); exists r; (split; [exact Hans1|]); (split; [exact Hh|]); (split; [exact Hnw|]); exact Hb.
     + destruct Hb as [Hnil ->]. apply finish_inv with (r := r); auto.
@@ -275,7 +289,7 @@ Proof.
     assert (Hans1 : answered (s_ans s t) t x1 (pend k1) r).
     { split; [exact Ha|]. split; [exact Hwf|]. subst x1. cbn [x_got x_opts add_got]. rewrite <- app_assoc. exact Heq. }
     destruct (rd_sym _ _ _ _ _) as [p1|body|e] eqn:Hrd.
-    + apply inv_set_thr0; [exact HI|]. cbn. split; [exact Hsafe|].
+    + (first [apply inv_set_thr0_rel|apply inv_set_thr0]); [exact HI|]. cbn. split; [exact Hsafe|].
       apply (ph_ok_mono _ _ _ (dead k1)) in Hb; [|intros Hd; exfalso; eapply not_dead_inb; eauto].
       destruct p1 as [ | | | | | | | |[|?] ?| | ]; cbn in Hb; try contradiction; (split; [exact Hout|]); exists r; (split; [exact Hans1|]); (split; [exact Hh|]); (split; [exact Hnw|]); exact Hb.
     + destruct Hb as [Hnil ->]. apply finish_inv with (r := r); auto.
@@ -286,7 +300,7 @@ Proof.
     assert (Hans1 : answered (s_ans s t) t x1 (pend k1) r).
     { split; [exact Ha|]. split; [exact Hwf|]. subst x1. cbn [x_got x_opts add_got]. rewrite <- app_assoc. exact Heq. }
     destruct (rd_sym _ _ _ _ _) as [p1|body|e] eqn:Hrd.
-    + apply inv_set_thr0; [exact HI|]. cbn. split; [exact Hsafe|].
+    + (first [apply inv_set_thr0_rel|apply inv_set_thr0]); [exact HI|]. cbn. split; [exact Hsafe|].
       apply (ph_ok_mono _ _ _ (dead k1)) in Hb; [|intros Hd; exfalso; eapply not_dead_inb; eauto].
       destruct p1 as [ | | | | | | | |[|?] ?| | ]; cbn in Hb; try contradiction; (split; [exact Hout|]); exists r; (split; [exact Hans1|]); (split; [exact Hh|]); (split; [exact Hnw|]); exact Hb.
     + destruct Hb as [Hnil ->]. apply finish_inv with (r := r); auto.
@@ -358,24 +372,30 @@ Proof. destruct l; [reflexivity|discriminate]. Qed.
 
 Lemma step_inv s l s1 : Inv s -> step s l = Some s1 -> Inv s1.
 Proof.
-  intros HI Hstep. pose proof I as Hsafe. destruct l as [t o from|t reset|t e|t|t|t|t|t|t werr|l r|l|l|i]; cbn [step] in Hstep.
+  intros HI Hstep. pose proof I as Hsafe. destruct l as [t o from|t reset rd|t e|t|t|t|t|t|t werr|l r|l|l|i]; cbn [step] in Hstep.
   - (* LAcquire *)
     destruct (s_thr s t) eqn:Hth; try discriminate.
     destruct from as [i|].
     + destruct (nth_error (s_idle s) i) as [k|] eqn:Hn; [|discriminate]. injection Hstep as <-.
-      apply inv_set_thr; [exact HI|intros k' Hk'; apply HI; eapply In_remove_nth; eauto|].
+      (first [apply inv_set_thr_rel|apply inv_set_thr]); [exact HI|intros k' Hk'; apply HI; eapply In_remove_nth; eauto|].
       cbn. split; [exact Hsafe|]. split; [|reflexivity]. apply HI. eapply nth_error_In; eauto.
     + injection Hstep as <-.
-      assert (HI' : Inv (mkSt (s_max s) (S (s_next s)) (s_idle s) (s_thr s) (s_ans s))) by exact HI.
+      assert (HI' : Inv (mkSt (s_max s) (S (s_next s)) (s_idle s) (s_thr s) (s_ans s) (s_rfree s) (s_rnext s))) by exact HI.
       apply (inv_set_thr0 _ t _ HI'). cbn. split; [exact Hsafe|]. split; [|reflexivity].
       unfold clean, quiet. cbn. auto.
   - (* LWrite *)
-    destruct (s_thr s t) as [|x p k|] eqn:Hth; try discriminate. destruct p; try discriminate. injection Hstep as <-.
+    destruct (s_thr s t) as [|x p k|] eqn:Hth; try discriminate. destruct p; try discriminate.
     pose proof (proj2 HI t) as Ht. rewrite Hth in Ht. destruct Ht as [Hs [[Ho Hq] Hg]].
-    apply inv_set_thr0; [exact HI|]. cbn. split; [exact Hs|]. split; [exact Hg|]. left. rewrite Ho. split; [reflexivity|exact Hq].
+    assert (Hok : forall r, thread_ok (s_ans s t) t
+               (TRun (set_rd (set_reset x reset) r) PHead (push_req k (mkReq t (o_kind (x_opts x)))))).
+    { intros r. cbn. split; [exact Hs|]. split; [exact Hg|]. left. rewrite Ho. split; [reflexivity|exact Hq]. }
+    destruct rd as [i|].
+    + destruct (nth_error (s_rfree s) i) as [r|]; [|discriminate]. injection Hstep as <-.
+      apply (inv_set_thr0 (set_rfree s _ _)); [exact HI|apply Hok].
+    + injection Hstep as <-. apply (inv_set_thr0 (set_rfree s _ _)); [exact HI|apply Hok].
   - (* LFail *)
     destruct (s_thr s t) as [|x p k|] eqn:Hth; destruct e; cbn in Hstep; try discriminate;
-      (destruct (is_stream_phase p); [discriminate|]); injection Hstep as <-; (apply inv_set_thr0; [exact HI|exact I]).
+      (destruct (is_stream_phase p); [discriminate|]); injection Hstep as <-; ((first [apply inv_set_thr0_rel|apply inv_set_thr0]); [exact HI|exact I]).
   - (* LRead *)
     destruct (s_thr s t) as [|x p k|] eqn:Hth; try discriminate.
     destruct (c_inb k) as [|[tg sy] rest] eqn:Hinb; [discriminate|].
@@ -396,7 +416,7 @@ Proof.
     destruct (stream_phase_facts _ _ _ _ _ Ht Hsp) as (Hs & Ho & r & (Ha & Hwf & Heq) & Hh & Hn & Hph).
     pose proof (pend_set_inb _ _ _ Hinb) as Hpend. rewrite Hpend in Hph, Heq.
     set (k1 := set_inb k rest) in *.
-    apply inv_set_thr0; [exact HI|].
+    (first [apply inv_set_thr0_rel|apply inv_set_thr0]); [exact HI|].
     assert (Hans1 : answered (s_ans s t) t (add_got x (tg, sy)) (pend k1) r).
     { split; [exact Ha|]. split; [exact Hwf|]. cbn [x_got x_opts add_got]. rewrite <- app_assoc. exact Heq. }
     assert (Hgoal : ph_ok t (o_stream (x_opts x)) (dead k1) p1 r (pend k1) -> thread_ok (s_ans s t) t (TRun (add_got x (tg, sy)) p1 k1)).
@@ -427,7 +447,7 @@ Proof.
     assert (Hd : dead k) by (split; assumption).
     assert (Hsp : is_stream_phase p = true) by (destruct p as [ | | | | | | |? [|]|[|?] [|]|[|]| ]; cbn in Hse; try discriminate; reflexivity).
     destruct (stream_phase_facts _ _ _ _ _ Ht Hsp) as (Hs & Ho & r & Hans & Hh & Hn & Hph).
-    apply inv_set_thr0; [exact HI|]. split; [exact Hs|].
+    (first [apply inv_set_thr0_rel|apply inv_set_thr0]); [exact HI|]. split; [exact Hs|].
     destruct p as [ | | | | | | |n [|]|[|m] [|]|[|]| ]; cbn in Hse; try discriminate; injection Hse as <-;
       (split; [exact Ho|]); exists r; (split; [exact Hans|]); (split; [exact Hh|]); (split; [exact Hn|]); cbn in Hph |- *.
     + destruct Hph as (Hst & Hl & _). auto.
@@ -437,7 +457,7 @@ Proof.
     destruct (s_thr s t) as [|x p k|] eqn:Hth; try discriminate. destruct p as [ | | | | | | | |[|?] [|]| | ]; try discriminate.
     injection Hstep as <-. pose proof (proj2 HI t) as Ht. rewrite Hth in Ht.
     destruct (stream_phase_facts _ _ _ _ _ Ht eq_refl) as (Hs & Ho & r & Hans & Hh & Hn & Hph).
-    apply inv_set_thr0; [exact HI|]. split; [exact Hs|]. split; [exact Ho|]. exists r.
+    (first [apply inv_set_thr0_rel|apply inv_set_thr0]); [exact HI|]. split; [exact Hs|]. split; [exact Ho|]. exists r.
     split; [exact Hans|]. split; [exact Hh|]. split; [exact Hn|]. cbn. apply Hph.
   - (* LCloseStream *)
     destruct (s_thr s t) as [|x p k|] eqn:Hth; try discriminate.
@@ -448,8 +468,8 @@ Proof.
     assert (Hdone : forall kept, thread_ok (s_ans s t) t (TDone x OOk kept)).
     { intros kept. cbn. exists r, (pend k). split; [exact Hans|]. congruence. }
     destruct (close_conn x || werr || stream_unread p) eqn:Hc; injection Hstep as <-.
-    + apply inv_set_thr0; [exact HI|apply Hdone].
-    + apply inv_set_thr; [exact HI| |apply Hdone].
+    + (first [apply inv_set_thr0_rel|apply inv_set_thr0]); [exact HI|apply Hdone].
+    + (first [apply inv_set_thr_rel|apply inv_set_thr]); [exact HI| |apply Hdone].
       intros k' [<-|Hin]; [|apply HI; exact Hin]. split; [exact Ho|].
       apply orb_false_elim in Hc as [Hc Hu]. apply orb_false_elim in Hc as [Hcc _].
       destruct p as [ | | | | | | |n e|m e|e| ]; try discriminate; cbn in Hph, Hu.
@@ -487,7 +507,7 @@ Proof.
     destruct l as [i|t]; cbn in Hc.
     + exfalso. apply Hnq. apply nth_error_In in Hc. apply HI in Hc. apply Hc.
     + destruct (s_thr s t) as [|x p k'|] eqn:Hth; try discriminate. injection Hc as ->.
-      unfold put_conn. rewrite Hth. apply inv_set_thr0; [exact HI|].
+      unfold put_conn. rewrite Hth. (first [apply inv_set_thr0_rel|apply inv_set_thr0]); [exact HI|].
       pose proof (proj2 HI t) as Ht. rewrite Hth in Ht.
       eapply thread_ok_conn; eauto; intros; contradiction.
   - (* LSrvClose *)
@@ -497,7 +517,7 @@ Proof.
     + split; [|exact (proj2 HI)]. cbn. intros k' Hk'. apply In_replace_nth in Hk' as [->|Hk']; [|apply HI; exact Hk'].
       apply nth_error_In in Hc. apply HI in Hc. destruct Hc as [Hc1 Hc2]. split; [congruence|auto].
     + destruct (s_thr s t) as [|x p k'|] eqn:Hth; try discriminate. injection Hc as ->.
-      apply inv_set_thr0; [exact HI|]. pose proof (proj2 HI t) as Ht. rewrite Hth in Ht.
+      (first [apply inv_set_thr0_rel|apply inv_set_thr0]); [exact HI|]. pose proof (proj2 HI t) as Ht. rewrite Hth in Ht.
       eapply thread_ok_conn; eauto.
   - (* LCleanIdle *)
     destruct (nth_error (s_idle s) i); [|discriminate]. injection Hstep as <-.
@@ -560,10 +580,214 @@ Definition skip_get : opts := mkOpts KGet false false true.
 Definition plain_get : opts := mkOpts KGet false false false.
 Definition crafted_resp : resp :=
   mkResp (mkHead (FLen 2) false false) [Some (mkHead (FLen 1) false false); None].
-Definition witness_trace : list label :=
-  [LAcquire 0 skip_get None; LWrite 0 false; LSrvRead (HeldBy 0) crafted_resp; LSrvSend (HeldBy 0); LRead 0;
-   LSrvSend (AtIdle 0); LSrvSend (AtIdle 0);
-   LAcquire 1 plain_get (Some 0); LWrite 1 false; LRead 1; LRead 1].
+
+(* ---- HostClient: who owns which pooled reader ------------------------------------------------------------------------------- *)
+Definition wf_rd (th : thread) : Prop :=
+  match th with
+  | TRun x PAcq _ => x_rd x = None
+  | TRun x _ _ => x_rd x <> None
+  | _ => True
+  end.
+
+Definition RInv (s : st) : Prop :=
+  NoDup (s_rfree s) /\ (forall r, In r (s_rfree s) -> r < s_rnext s) /\
+  (forall t, wf_rd (s_thr s t)) /\
+  (forall t r, holds_reader (s_thr s t) = Some r -> r < s_rnext s /\ ~ In r (s_rfree s)) /\
+  (forall t1 t2 r, holds_reader (s_thr s t1) = Some r -> holds_reader (s_thr s t2) = Some r -> t1 = t2).
+
+(* a step that moves no reader *)
+Lemma rinv_same s s' :
+  RInv s -> s_rfree s' = s_rfree s -> s_rnext s' = s_rnext s ->
+  (forall j, holds_reader (s_thr s' j) = holds_reader (s_thr s j)) -> (forall j, wf_rd (s_thr s' j)) -> RInv s'.
+Proof.
+  intros (H1 & H2 & H3 & H4 & H5) Hf Hn Hh Hw. unfold RInv. rewrite Hf, Hn.
+  split; [exact H1|]. split; [exact H2|]. split; [exact Hw|]. split.
+  - intros t r. rewrite Hh. apply H4.
+  - intros t1 t2 r. rewrite !Hh. apply H5.
+Qed.
+
+(* thread t gives its reader (if it has one) back to the pool and stops *)
+Lemma rinv_release s s' t :
+  RInv s ->
+  s_rfree s' = match holds_reader (s_thr s t) with Some r => r :: s_rfree s | None => s_rfree s end ->
+  s_rnext s' = s_rnext s ->
+  (forall j, j <> t -> s_thr s' j = s_thr s j) -> holds_reader (s_thr s' t) = None -> wf_rd (s_thr s' t) -> RInv s'.
+Proof.
+  intros (H1 & H2 & H3 & H4 & H5) Hf Hn Ho Ht Hw. unfold RInv. rewrite Hf, Hn.
+  assert (Hh : forall j r, holds_reader (s_thr s' j) = Some r -> j <> t /\ holds_reader (s_thr s j) = Some r).
+  { intros j r Hj. destruct (Nat.eq_dec j t) as [->|Hne]; [congruence|]. rewrite (Ho _ Hne) in Hj. auto. }
+  split; [|split; [|split; [|split]]].
+  - destruct (holds_reader (s_thr s t)) as [r|] eqn:Hr; [|exact H1]. constructor; [apply (H4 _ _ Hr)|exact H1].
+  - intros r Hin. destruct (holds_reader (s_thr s t)) as [r0|] eqn:Hr; [|auto]. destruct Hin as [<-|Hin]; [apply (H4 _ _ Hr)|auto].
+  - intros j. destruct (Nat.eq_dec j t) as [->|Hne]; [exact Hw|rewrite (Ho _ Hne); apply H3].
+  - intros j r Hj. destruct (Hh _ _ Hj) as [Hne Hj']. split; [apply (H4 _ _ Hj')|].
+    destruct (holds_reader (s_thr s t)) as [r0|] eqn:Hr; [|apply (H4 _ _ Hj')].
+    intros [<-|Hin]; [apply Hne; eapply H5; eauto|apply (H4 _ _ Hj'); exact Hin].
+  - intros t1 t2 r Ha Hb. destruct (Hh _ _ Ha), (Hh _ _ Hb). eauto.
+Qed.
+
+Lemma rel_rfree s x : s_rfree (rel s x) = match x_rd x with Some r => r :: s_rfree s | None => s_rfree s end /\ s_rnext (rel s x) = s_rnext s.
+Proof. unfold rel. destruct (x_rd x); auto. Qed.
+
+Lemma holds_run s t x p k : RInv s -> s_thr s t = TRun x p k -> holds_reader (s_thr s t) = x_rd x.
+Proof.
+  intros HR Hth. pose proof (proj1 (proj2 (proj2 HR)) t) as Hw. rewrite Hth in *. destruct p; cbn in *; congruence.
+Qed.
+
+(* the thread stops: set_thr (rel s x) t (TDone ..), possibly after putting its connection back *)
+Lemma rinv_done s t x p k x1 o kept idle' :
+  RInv s -> s_thr s t = TRun x p k -> x_rd x1 = x_rd x ->
+  RInv (set_thr (rel s x1) t (TDone x1 o kept)) /\ RInv (set_thr (set_idle (rel s x1) idle') t (TDone x1 o kept)).
+Proof.
+  intros HR Hth Hx. pose proof (holds_run _ _ _ _ _ HR Hth) as Hh.
+  destruct (rel_rfree s x1) as [Hf Hn]. destruct (rel_same s x1) as (_ & Ht & _).
+  split; apply (rinv_release s _ t HR).
+  all: try (cbn; rewrite ?Hf, ?Hn, ?Hh, ?Hx; reflexivity).
+  all: try (cbn; rewrite Nat.eqb_refl; (reflexivity || exact I)).
+  all: intros j Hj; cbn; rewrite Ht; destruct (Nat.eqb_spec j t); [contradiction|reflexivity].
+Qed.
+
+(* the thread goes on with the same reader *)
+Lemma rinv_keep s t x p k x1 p1 k1 :
+  RInv s -> s_thr s t = TRun x p k -> x_rd x1 = x_rd x -> (p = PAcq <-> p1 = PAcq) -> RInv (set_thr s t (TRun x1 p1 k1)).
+Proof.
+  intros HR Hth Hx Hp. pose proof (proj1 (proj2 (proj2 HR)) t) as Hw. rewrite Hth in Hw.
+  apply (rinv_same s); auto.
+  - intros j. cbn. destruct (Nat.eqb_spec j t) as [->|]; [|reflexivity]. rewrite Hth.
+    destruct p, p1; cbn in *; try congruence; try (exfalso; destruct Hp as [Ha Hb]; (discriminate (Ha eq_refl) || discriminate (Hb eq_refl))).
+  - intros j. cbn. destruct (Nat.eqb_spec j t) as [->|]; [|apply HR].
+    destruct p, p1; cbn in *; try congruence; try (exfalso; destruct Hp as [Ha Hb]; (discriminate (Ha eq_refl) || discriminate (Hb eq_refl))).
+Qed.
+
+Lemma finish_rinv s t x p k x1 k1 body :
+  RInv s -> s_thr s t = TRun x p k -> p <> PAcq -> x_rd x1 = x_rd x -> RInv (finish s t x1 k1 body).
+Proof.
+  intros HR Hth Hp Hx. unfold finish. destruct (o_stream (x_opts x1) && body).
+  - eapply rinv_keep; eauto. split; [contradiction|discriminate].
+  - destruct (close_conn x1); eapply rinv_done; eauto.
+Qed.
+
+Lemma step_rinv s l s1 : RInv s -> step s l = Some s1 -> RInv s1.
+Proof.
+  intros HR Hstep. destruct l as [t o from|t reset rd|t e|t|t|t|t|t|t werr|l r|l|l|i]; cbn [step] in Hstep.
+  - (* LAcquire *)
+    destruct (s_thr s t) eqn:Hth; try discriminate.
+    assert (Hgen : forall s0 x k, s_rfree s0 = s_rfree s -> s_rnext s0 = s_rnext s -> s_thr s0 = s_thr s -> x_rd x = None ->
+                                  RInv (set_thr s0 t (TRun x PAcq k))).
+    { intros s0 x k Hf Hn Ht Hx. apply (rinv_same s); auto; intros j; cbn; rewrite Ht;
+        (destruct (Nat.eqb_spec j t) as [->|]; [rewrite ?Hth; cbn; auto|try reflexivity; apply HR]). }
+    destruct from as [i|].
+    + destruct (nth_error (s_idle s) i); [|discriminate]. injection Hstep as <-. apply Hgen; reflexivity.
+    + injection Hstep as <-. apply Hgen; reflexivity.
+  - (* LWrite *)
+    destruct (s_thr s t) as [|x p k|] eqn:Hth; try discriminate. destruct p; try discriminate.
+    destruct HR as (H1 & H2 & H3 & H4 & H5).
+    assert (Hnone : holds_reader (s_thr s t) = None) by (rewrite Hth; reflexivity).
+    destruct rd as [i|].
+    + destruct (nth_error (s_rfree s) i) as [r|] eqn:Hn; [|discriminate]. injection Hstep as <-.
+      pose proof (nth_error_In _ _ Hn) as Hin.
+      assert (Hsplit : exists l1 l2, s_rfree s = l1 ++ r :: l2 /\ remove_nth i (s_rfree s) = l1 ++ l2).
+      { clear -Hn. revert i Hn. induction (s_rfree s) as [|a l IH]; intros [|i] Hn; cbn in *; try discriminate.
+        - injection Hn as ->. exists [], l. auto.
+        - destruct (IH _ Hn) as (l1 & l2 & -> & ->). exists (a :: l1), l2. auto. }
+      destruct Hsplit as (l1 & l2 & Hfr & Hrm).
+      pose proof H1 as Hnd. rewrite Hfr in Hnd. apply NoDup_remove in Hnd as [Hnd Hnot].
+      unfold RInv. cbn. rewrite Hrm.
+      split; [exact Hnd|]. split; [intros r0 Hr0; apply H2; rewrite Hfr; apply in_app_or in Hr0 as [?|?]; apply in_or_app; cbn; auto|].
+      split; [intros j; destruct (Nat.eqb_spec j t); [cbn; discriminate|apply H3]|]. split.
+      * intros j r0. destruct (Nat.eqb_spec j t) as [->|Hne]; cbn.
+        -- intros Hr0. injection Hr0 as <-. split; [apply H2, Hin|exact Hnot].
+        -- intros Hr0. destruct (H4 _ _ Hr0) as [Ha Hb]. split; [exact Ha|]. intros Hc. apply Hb. rewrite Hfr.
+           apply in_app_or in Hc as [?|?]; apply in_or_app; cbn; auto.
+      * intros t1 t2 r0. destruct (Nat.eqb_spec t1 t) as [->|Hn1], (Nat.eqb_spec t2 t) as [->|Hn2]; cbn; auto.
+        -- intros Ha Hb. injection Ha as <-. exfalso. apply (proj2 (H4 _ _ Hb)). exact Hin.
+        -- intros Ha Hb. injection Hb as <-. exfalso. apply (proj2 (H4 _ _ Ha)). exact Hin.
+        -- apply H5.
+    + injection Hstep as <-. unfold RInv. cbn.
+      split; [exact H1|]. split; [intros r0 Hr0; specialize (H2 _ Hr0); lia|].
+      split; [intros j; destruct (Nat.eqb_spec j t); [cbn; discriminate|apply H3]|]. split.
+      * intros j r0. destruct (Nat.eqb_spec j t) as [->|Hne]; cbn.
+        -- intros Hr0. injection Hr0 as <-. split; [lia|]. intros Hc. specialize (H2 _ Hc). lia.
+        -- intros Hr0. destruct (H4 _ _ Hr0) as [Ha Hb]. split; [lia|exact Hb].
+      * intros t1 t2 r0. destruct (Nat.eqb_spec t1 t) as [->|Hn1], (Nat.eqb_spec t2 t) as [->|Hn2]; cbn; auto.
+        -- intros Ha Hb. injection Ha as <-. destruct (H4 _ _ Hb). lia.
+        -- intros Ha Hb. injection Hb as <-. destruct (H4 _ _ Ha). lia.
+        -- apply H5.
+  - (* LFail *)
+    destruct (s_thr s t) as [|x p k|] eqn:Hth; destruct e; cbn in Hstep; try discriminate;
+      (destruct (is_stream_phase p); [discriminate|]); injection Hstep as <-; eapply rinv_done; eauto.
+    Unshelve. all: exact [].
+  - (* LRead *)
+    destruct (s_thr s t) as [|x p k|] eqn:Hth; try discriminate.
+    destruct (c_inb k) as [|[tg sy] rest] eqn:Hinb; [discriminate|].
+    assert (Hx : forall x0, x_rd (add_got x0 (tg, sy)) = x_rd x0) by reflexivity.
+    assert (Hsh : x_rd (set_head x sy) = x_rd x) by (destruct sy as [|?|[?|]|]; reflexivity).
+    destruct p; try discriminate;
+      (destruct (rd_sym _ _ _ _ _) as [p1|body|e] eqn:Hrd; injection Hstep as <-;
+       [ eapply rinv_keep; eauto; [rewrite Hx, ?Hsh; reflexivity|split; [discriminate|]; intros ->; exfalso; revert Hrd; unfold rd_sym, after_head;
+           repeat match goal with |- context [match ?c with _ => _ end] => destruct c | |- context [if ?c then _ else _] => destruct c end; discriminate]
+       | eapply finish_rinv; eauto; [discriminate|rewrite Hx, ?Hsh; reflexivity]
+       | eapply rinv_done; eauto; rewrite Hx, ?Hsh; reflexivity ]).
+    Unshelve. all: exact [].
+  - (* LReadEof *)
+    destruct (s_thr s t) as [|x p k|] eqn:Hth; try discriminate. destruct p; try discriminate.
+    destruct (c_inb k); [|discriminate]. destruct (c_srvclosed k); [|discriminate]. injection Hstep as <-.
+    eapply finish_rinv; eauto. discriminate.
+  - (* LStreamRead *)
+    destruct (s_thr s t) as [|x p k|] eqn:Hth; try discriminate.
+    destruct (c_inb k) as [|[tg sy] rest]; [discriminate|].
+    destruct (stream_sym p sy) as [p1|] eqn:Hss; [|discriminate]. injection Hstep as <-.
+    eapply rinv_keep; eauto. split; [intros ->; discriminate|].
+    intros ->. destruct p as [ | | | | | | |? [|]|[|?] [|]|[|]| ]; cbn in Hss; try discriminate;
+      repeat match type of Hss with context [match ?c with _ => _ end] => destruct c end; discriminate.
+  - (* LStreamEof *)
+    destruct (s_thr s t) as [|x p k|] eqn:Hth; try discriminate.
+    destruct (c_inb k); [|discriminate]. destruct (stream_eof p) as [p1|] eqn:Hse; [|discriminate].
+    destruct (c_srvclosed k); [|discriminate]. injection Hstep as <-.
+    eapply rinv_keep; eauto. split; [intros ->; discriminate|].
+    intros ->. destruct p as [ | | | | | | |? [|]|[|?] [|]|[|]| ]; cbn in Hse; discriminate.
+  - (* LStreamErr *)
+    destruct (s_thr s t) as [|x p k|] eqn:Hth; try discriminate. destruct p as [ | | | | | | | |[|?] [|]| | ]; try discriminate.
+    injection Hstep as <-. eapply rinv_keep; eauto. split; discriminate.
+  - (* LCloseStream *)
+    destruct (s_thr s t) as [|x p k|] eqn:Hth; try discriminate. destruct (is_stream_phase p); [|discriminate].
+    destruct (close_conn x || werr || stream_unread p); injection Hstep as <-; eapply rinv_done; eauto.
+    Unshelve. all: exact [].
+  - (* LSrvRead *)
+    destruct (conn_at s l) as [k|] eqn:Hc; [|discriminate]. destruct (srv_read k r) as [[k1 q]|]; [|discriminate].
+    injection Hstep as <-. destruct l as [i|t]; cbn in Hc; unfold put_conn.
+    + apply (rinv_same s); auto. intros j; apply HR.
+    + destruct (s_thr s t) as [|x p k'|] eqn:Hth; try discriminate.
+      assert (HR1 : RInv (set_thr s t (TRun x p k1))) by (eapply rinv_keep; eauto; tauto).
+      apply (rinv_same _ _ HR1); auto. intros j; apply HR1.
+  - (* LSrvSend *)
+    destruct (conn_at s l) as [k|] eqn:Hc; [|discriminate]. destruct (srv_send k) as [k1|]; [|discriminate].
+    injection Hstep as <-. destruct l as [i|t]; cbn in Hc; unfold put_conn.
+    + apply (rinv_same s); auto. intros j; apply HR.
+    + destruct (s_thr s t) as [|x p k'|] eqn:Hth; try discriminate. eapply rinv_keep; eauto; tauto.
+  - (* LSrvClose *)
+    destruct (conn_at s l) as [k|] eqn:Hc; [|discriminate]. injection Hstep as <-. destruct l as [i|t]; cbn in Hc; unfold put_conn.
+    + apply (rinv_same s); auto. intros j; apply HR.
+    + destruct (s_thr s t) as [|x p k'|] eqn:Hth; try discriminate. eapply rinv_keep; eauto; tauto.
+  - (* LCleanIdle *)
+    destruct (nth_error (s_idle s) i); [|discriminate]. injection Hstep as <-. apply (rinv_same s); auto. intros j; apply HR.
+Qed.
+
+Lemma rinv_init max : RInv (init max).
+Proof. unfold RInv. cbn. repeat split; try constructor; try contradiction; try discriminate; intros; discriminate. Qed.
+
+Lemma rinv_reach max s : reach max s -> RInv s.
+Proof. induction 1; [apply rinv_init|eapply step_rinv; eauto]. Qed.
+
+Lemma readers_owned_reach max s : reach max s -> readers_owned s.
+Proof.
+  intros Hr. destruct (rinv_reach _ _ Hr) as (H1 & H2 & H3 & H4 & H5). split; [|split].
+  - intros t x p k Hth Hp. specialize (H3 t). rewrite Hth in *. destruct (x_rd x) as [r|] eqn:Hx.
+    + exists r. destruct p; cbn; congruence.
+    + destruct p; cbn in H3; congruence.
+  - intros t r Hh. apply (H4 _ _ Hh).
+  - exact H5.
+Qed.
 
 (* ---- PipelineClient ------------------------------------------------------------------------------------------------------------ *)
 Definition rd_items (s : pst) : list pitem := match p_rd s with RHold it _ _ => [it] | _ => [] end.
